@@ -8,7 +8,10 @@ RULE = ('one case = one BASIC statement of a random history executed in a real S
         'statements quick / 3000 thorough, chained in sessions whose memory is shrunk by CLEAR ,n from the default '
         'down to a few bytes of free space); non-trivial = the statement touches string memory (assignment, '
         'concatenation with temporaries, MID$/LSET/RSET, SWAP, ERASE/DIM, FRE, CLEAR, DEF FN / string function '
-        'calls); after every statement all observed variables are read back and compared')
+        'calls, READ); low-memory episodes fill memory by FRE(0) feedback so that a statement which dimensions an '
+        'array implicitly (SWAP / LET / LSET / RSET / MID$ / READ with an element of a not yet existing array) has to '
+        'collect garbage between looking up its operand and storing the value; after every statement all observed '
+        'variables are read back and compared')
 EXPLANATION = ('theorems (PcbV.Props.C10 on PcbV.Model.Heap): on every well-formed heap the compacting collector '
                'never crashes, preserves well-formedness and every readable value (scalars, array elements, stack '
                'temporaries, several views of one cell), never loses space, fills string space exactly (FRE '
@@ -26,12 +29,13 @@ TRUSTED_BASE = ['model PcbV.Model.Heap is a hand transcription of strings.py Str
                 'needs pending fixes C10-collector, C10-stack-unwind, C10-midset-source-root '
                 '(and C10-deffn-saved-roots for the DEF FN histories)']
 ASSUMPTIONS = ['string arrays are one-dimensional, OPTION BASE 0; memory sizes leave FRE non-negative',
-               'FIELD strings are not exercised (C25)']
+               'FIELD strings are not exercised (C25); INPUT / LINE INPUT into string variables is not driven '
+               '(no input stream in the harness), READ is']
 
 MSG = {b'Out of memory': 7, b'Out of string space': 14, b'String too long': 15, b'Subscript out of range': 9,
        b'Illegal function call': 5, b'Duplicate Definition': 10, b'Type mismatch': 13, b'Syntax error': 2,
        b'Undefined user function': 18, b'Overflow': 6, b'String formula too complex': 16,
-       b'Internal error': 51, b'Illegal direct': 12, b'Missing operand': 22}
+       b'Internal error': 51, b'Illegal direct': 12, b'Missing operand': 22, b'Out of DATA': 4}
 
 SCALARS = [b'A$', b'B$', b'C$', b'D$', b'E$', b'LONGNAME$']
 ARRAYS = [(b'R$', 3), (b'S$', 2)]
@@ -153,6 +157,10 @@ def op_text(op):
         return b'PRINT INSTR(%s,%s)' % (expr_text(op[1]), expr_text(op[2]))
     if k == 'rerun':
         return b'RUN'
+    if k == 'read':
+        return b'READ ' + dst_text(op[1])
+    if k == 'restore':
+        return b'RESTORE'
     raise ValueError(k)
 
 
@@ -475,6 +483,9 @@ class Runner(object):
         self.total0 = self.total
         self.history = []
         self.ops = []
+        self.last_val = self.last_err = None
+        self.data_idx = 0
+        self.data_unsure = False
         self.impl_tokens = []
         self.code_lits = {}
         self.failed = False
@@ -558,6 +569,7 @@ class Runner(object):
                 err = -1
         if err is not None:
             ctx.count('err:%d' % err)
+        self.last_val, self.last_err = val, err
         try:
             sc, ar = self.observe()
         except Exception as e:
@@ -654,6 +666,25 @@ class Runner(object):
             elif k == 'rerun':
                 ref.clear()
                 ref.functions = True
+                self.data_idx = 0
+                self.data_unsure = False
+            elif k == 'restore':
+                self.data_idx = 0
+                self.data_unsure = False
+            elif k == 'read':
+                ref.touch(op[1], created)
+                if op[1][0] == 's':
+                    demand.append(scalar_size(op[1][1]))
+                if self.data_idx >= len(DATA_ITEMS):
+                    raise Deterministic(4)
+                item = DATA_ITEMS[self.data_idx]
+                demand.append(len(item))
+                demand.append(len(item))
+                if err is None:
+                    self.data_idx += 1
+                elif err in (7, 14):
+                    self.data_unsure = True     # the DATA pointer may or may not have advanced
+                ref.write(op[1], item)
             elif k in ('frs', 'fr0'):
                 pass
         except Deterministic as d:
@@ -756,6 +787,74 @@ def clear_sizes(rng, var_start, stack, n):
     return [p + rng.randrange(0, 7) for p in picks[:-1]] + picks[-1:]
 
 
+def pressure_episode(r, rng, label, do, extended=False):
+    """A statement that dimensions an array implicitly (SWAP / LET / LSET / RSET / MID$ / READ with an element
+    of an array that does not exist yet) while the free memory is just too small for it: the implicit DIM has to
+    collect garbage between the moment the other operand is looked up and the moment the value is stored, and
+    there is garbage above the operand's string so that it moves.  Parameters are random; the memory is filled
+    by feedback from FRE(0)."""
+    (tname, _), (uname, un) = rng.sample(ARRAYS, 2)
+    names = rng.sample(SCALARS, len(SCALARS))
+    g, a, c = names[:3]
+    holders = [('s', n) for n in names[3:]] + [('e', uname, j) for j in (1, 2)]
+    exists = lambda n: bool(r.s.get_variable(n + b'()'))
+    if exists(tname):
+        do(('erase', tname))
+    if not exists(uname):
+        do(('dim', uname, un))
+    for h in holders:
+        do(('let', h, ('lit', b'')))
+    lg = rng.randrange(4, 60)
+    do(('let', ('s', g), ('rep', lg, 103)))
+    do(('let', ('s', a), rng.choice([('rep', rng.randrange(1, 40), 97), ('lit', rand_bytes(rng, rng.randrange(1, 30)))])))
+    do(('let', ('s', c), ('rep', rng.randrange(1, 40), 99)))
+    do(('let', ('e', uname, 0), ('rep', rng.randrange(0, 25), 117)))
+    do(('let', ('s', g), ('lit', b'')))          # garbage above the other strings
+    do(('fr0',))
+    f = r.last_val
+    if r.failed or f is None:
+        return False
+    need = array_size(tname, 11)
+    leave = rng.randrange(max(1, need - lg + 1), need + 1)     # collect needed, and enough afterwards
+    fill = f - leave
+    if fill < 0 or fill > 255 * len(holders):
+        return False
+    for h in holders:
+        n = min(255, fill)
+        if n == 0:
+            break
+        do(('let', h, ('rep', n, 112)))
+        fill -= n
+    do(('fr0',))
+    i = rng.randrange(0, 11)
+    t = ('e', tname, i)
+    src = rng.choice([('var', ('s', a)), ('cat', ('var', ('s', a)), ('lit', b'+')),
+                      ('cat', ('var', ('s', c)), ('var', ('s', a))), ('var', ('e', uname, 0))])
+    x = rng.random()
+    if x < 0.25:
+        op = ('swap', ('s', a), t)
+    elif x < 0.4:
+        op = ('swap', ('e', uname, 0), t)
+    elif x < 0.5:
+        op = ('swap', t, rng.choice([('s', a), ('e', uname, 0)]))
+    elif x < 0.75:
+        op = ('let', t, src)
+    elif x < 0.85:
+        op = ('lset', t, rng.random() < 0.5, src)
+    elif x < 0.93 or not extended:
+        op = ('mid', t, 1, rng.choice([None, 0, 3]), src)
+    else:
+        op = ('read', t)
+    r.ctx.count('pressure:' + op[0])
+    do(op)
+    if r.last_err in (7, 14):
+        r.ctx.count('pressure-failed-alloc')
+    do(('fr0',))
+    if rng.random() < 0.5:
+        do(('frs',))
+    return True
+
+
 def modelled_session(ctx, n_hist, hist_len, label):
     """histories of modelled statements; compared step by step with the Lean model and with the reference"""
     rng = ctx.rng
@@ -777,9 +876,17 @@ def modelled_session(ctx, n_hist, hist_len, label):
                     op = ('dim', name, n)
                     ops.append(op)
                     r.step(op, label)
+            def do(op):
+                if not r.failed:
+                    ops.append(op)
+                    r.step(op, label)
+            tight = size is not None and size < m.var_start() + m.stack_size + 2 + 1600
             for _ in range(length):
                 if r.failed:
                     break
+                if tight and rng.random() < 0.012:
+                    pressure_episode(r, rng, label, do)
+                    continue
                 op = rand_op(rng, small)
                 ops.append(op)
                 r.step(op, label)
@@ -812,10 +919,13 @@ def compare_model(ctx, r, ops, line, label):
     ctx.count('model-steps-agreed', min(len(r.impl_tokens), len(mt)))
 
 
+DATA_ITEMS = [b'alpha', b'bravo charlie', b'd', b'', b'echo-foxtrot-golf-hotel-india-juliet-kilo-lima-mike-november',
+              b'oscar', b'papa quebec', b'romeo', b'sierra tango uniform', b'victor', b'w', b'xray yankee zulu']
 PROGRAM = [
     b'10 DEF FNA$(X$)=X$+"!"+X$',
     b'20 DEF FNB$(X$,Y$)=LEFT$(Y$+X$,40)+MID$(X$,2,5)',
     b'30 END',
+    b'40 DATA ' + b','.join(b'"' + x + b'"' for x in DATA_ITEMS),
 ]
 CODE_LINES = [
     (100, b'A$', b'program literal number one'),
@@ -844,7 +954,15 @@ def extended_session(ctx, n_hist, hist_len, label):
             for _ in range(rng.randrange(hist_len // 3, hist_len + 1)):
                 if r.failed:
                     return r
+                if r.data_unsure:
+                    r.step(('restore',), label)
                 x = rng.random()
+                if size is not None and size < m.var_start() + m.stack_size + 2 + 1600 and x > 0.985:
+                    pressure_episode(r, rng, label, lambda o: (None if r.failed else r.step(o, label)), True)
+                    continue
+                if 0.04 <= x < 0.06:
+                    r.step(('read', rand_dst(rng)), label)
+                    continue
                 if x < 0.04:
                     op = ('instr', rand_expr(rng, small, 1, True, True), rand_expr(rng, True, 2, True, True))
                 else:
